@@ -1213,10 +1213,10 @@ package decimal
 
 // Rat: always Exact for finite values and zero, nil for infinities; the numerator handed to
 // math/big is the mantissa (shifted up for an integer), the denominator 10^(digits - exp).
-//@ extern (*math/big.Rat).Denom (z)
-//@   ensures[ret] result != nil
-//@ extern (*math/big.Rat).Num (z)
-//@   ensures[ret] result != nil
+//@ extern (*math/big.Rat).Denom (x)
+//@   ensures[ret] result != nil && result == uf_den(x)
+//@ extern (*math/big.Rat).Num (x)
+//@   ensures[ret] result != nil && result == uf_num(x)
 //@ extern (*math/big.Rat).Quo (z, x, y)
 //@   ensures[ret] result == z
 //@ extern (*math/big.Rat).Neg (z, x)
@@ -1315,11 +1315,11 @@ package decimal
 // assumption: the destination is long enough, so a non-zero x gives a non-empty result).
 
 //@ extern (*math/big.Int).BitLen (x)
-//@   ensures[range] 0 <= result && result <= 4294967295 && result == uf_bitlen(x) && uf_abs(x) >= 0 && (result != 0 <==> uf_abs(x) >= 1)
+//@   ensures[range] 0 <= result && result <= 4294967295 && result == uf_bitlen(x) && uf_abs(x) >= 0 && uf_nwords(x) >= 0 && (result != 0 <==> uf_abs(x) >= 1)
 //@ extern (*math/big.Int).Sign (x)
 //@   ensures[range] 0 - 1 <= result && result <= 1 && (result < 0 <==> uf_neg(x) != 0)
 //@ extern (*math/big.Int).Bits (x)
-//@   ensures[range] len(result) <= 40000000 && (uf_bitlen(x) != 0 ==> len(result) >= 1)
+//@   ensures[range] len(result) <= 40000000 && len(result) == uf_nwords(x) && (uf_bitlen(x) != 0 ==> len(result) >= 1)
 //@   ensures[value] V2(result) == uf_abs(x) && (uf_bitlen(x) != 0 <==> uf_abs(x) >= 1)
 //@ extern math.Ceil (x)
 
@@ -1347,12 +1347,32 @@ package decimal
 //@   loop 2 hint Vdef(z, 0, i-1)
 //@   hint[ret] bind(gR, V2(b))
 
+// SetRat: an integer goes through SetInt; otherwise numerator and denominator are converted
+// exactly (receivers of precision 0) and divided with Quo: precision rule, mode, canonical
+// result.  The value is that of Quo applied to the two converted integers (bounded check
+// against math/big in big-conversions).
+//@ extern (*math/big.Rat).IsInt (x)
+//@   ensures[nonint] !result ==> uf_abs(uf_num(x)) >= 1 && uf_abs(uf_den(x)) >= 1
+//@ func (z *Decimal) SetRat(x *big.Rat) *Decimal
+//@   requires[wf] z != nil && x != nil && z.mode <= 5 && z.prec <= 1000000000 && (z.prec != 0 ==> valid(z))
+//@   requires[size] uf_nwords(uf_num(x)) <= 2000000 && uf_nwords(uf_den(x)) <= 2000000
+//@   modifies z.prec, z.acc, z.form, z.neg, z.exp, z.mant, memcap(z.mant)
+//@   ensures[result] result == z
+//@   ensures[sticky,C09] old(z.prec) != 0 ==> z.prec == old(z.prec)
+//@   ensures[prec0,C09,C14] old(z.prec) == 0 ==> z.prec >= DefaultDecimalPrec
+//@   ensures[mode,C09] z.mode == old(z.mode)
+//@   ensures[valid,C08] valid(z)
+//@   tags safety C04,C14
+
 //@ func (z *Decimal) SetInt(x *big.Int) *Decimal
 //@   requires[wf] z != nil && x != nil && z.mode <= 5
 //@   modifies z.prec, z.acc, z.form, z.neg, z.exp, z.mant, memcap(z.mant)
 //@   ensures[result] result == z
 //@   ensures[sticky,C09] old(z.prec) != 0 ==> z.prec == old(z.prec)
-//@   ensures[prec0,C09,C14] old(z.prec) == 0 ==> z.prec >= DefaultDecimalPrec
+//@   ensures[prec0,C09,C14] old(z.prec) == 0 ==> z.prec >= DefaultDecimalPrec && z.prec <= 19*(2*uf_nwords(x) + 1) + DefaultDecimalPrec
+//@   ensures[size] z.form == finite ==> len(z.mant) <= 2*uf_nwords(x) + 1
+//@   ensures[finite,C14] uf_abs(x) != 0 ==> z.form == finite
+//@   ensures[buffer,C18] buffer_ok(z)
 //@   ensures[mode,C09] z.mode == old(z.mode)
 //@   ensures[sign,C14] z.neg == (uf_neg(x) != 0)
 //@   ensures[zero,C14,C02] uf_abs(x) == 0 ==> z.form == zero && z.acc == 0
